@@ -82,6 +82,16 @@ func ProfilePayload(t *rapid.T, label string, n int) []byte {
 		return Payload(t, label, n)
 	}
 	p := build.SimpleProfile(desc, n-over)
+	if rapid.Bool().Draw(t, label+"hdrenums") {
+		// the enumerated header fields over their legal values: profile class, data colour space, connection space,
+		// version, platform (a grey profile in a colour image, a printer profile, a v2 link ... are all the image
+		// author's business, not the container's)
+		copy(p[12:16], rapid.SampledFrom([]string{"scnr", "mntr", "prtr", "link", "spac", "abst", "nmcl"}).Draw(t, label+"class"))
+		copy(p[16:20], rapid.SampledFrom([]string{"GRAY", "GRAY", "RGB ", "CMYK", "Lab ", "XYZ ", "YCbr", "Luv ", "Yxy ", "HSV ", "HLS ", "CMY ", "2CLR", "6CLR", "FCLR"}).Draw(t, label+"space"))
+		copy(p[20:24], rapid.SampledFrom([]string{"XYZ ", "Lab "}).Draw(t, label+"pcs"))
+		copy(p[8:12], rapid.SampledFrom([]string{"\x02\x10\x00\x00", "\x02\x40\x00\x00", "\x04\x00\x00\x00", "\x04\x20\x00\x00", "\x04\x30\x00\x00", "\x04\x40\x00\x00", "\x05\x00\x00\x00"}).Draw(t, label+"version"))
+		copy(p[40:44], rapid.SampledFrom([]string{"APPL", "MSFT", "SGI ", "SUNW", "\x00\x00\x00\x00"}).Draw(t, label+"platform"))
+	}
 	if rapid.Bool().Draw(t, label+"hdrfields") {
 		copy(p[44:48], Payload(t, label+"flags", 4))
 		copy(p[64:68], Payload(t, label+"intent", 4))
